@@ -22,6 +22,10 @@ package main
 //	       rejected, alt = the rest of the event as encoding/json writes it (see loki.go)
 //	  obs  = (attempt ...)   attempt = (0 ((#body status) ...) ret) | (2)   [panic ends the case]
 //	         a batch is offered again (at most 3 times) while out() returns an error
+//	which 10 es | 11 file | 12 http | 14 splunk | 15 gelf  (+ 16 * variant): the same sinks driven through their
+//	      PUBLIC API (Factory / Start / Out / Stop) with the plugin's own batcher, see via.go; obs as for loki
+//	  status: an answer of the script is 1000 * kind + status; kind 0 = the plain body, kinds 1..7 other
+//	      response bodies (odd: the sink's response reader accepts it, even: it rejects it; see answerBody)
 //	which 7  Batch.ForEach: case = (kind ...)   obs = (position visited ...)
 //	which 8  case = #s   obs = json.Valid("\"" + s + "\"")
 //	which 9  case = #s   obs = json.Valid(s)
@@ -123,11 +127,22 @@ func servers() [2]string {
 				if rec.loki {
 					body = canonNow(body)
 				}
-				st := rec.next()
-				rec.add(body, st)
+				ans := rec.next()
+				rec.add(body, ans)
+				st, reply := ans, answerBody(0)
+				if ans >= 1000 {
+					st, reply = ans%1000, answerBody(ans/1000)
+				}
 				srvHits[id]++
 				if gz {
 					gzReqs++
+				}
+				srvPaths[req.URL.RequestURI()]++
+				if a := req.Header.Get("Authorization"); a != "" {
+					srvAuth[strings.SplitN(a, " ", 2)[0]]++
+				}
+				if req.Header.Get("X-Scope-OrgID") != "" {
+					srvAuth["tenant-header"]++
 				}
 				rec.mu.Unlock()
 				if st == 199 {
@@ -141,7 +156,7 @@ func servers() [2]string {
 				}
 				w.WriteHeader(st)
 				if st != 204 && st != 304 {
-					_, _ = w.Write([]byte(`{"errors":false,"code":0}`))
+					_, _ = w.Write(reply)
 				}
 			}))
 			srvURLs[id] = s.URL
@@ -152,12 +167,41 @@ func servers() [2]string {
 
 func server() string { return servers()[0] }
 
+// the second endpoint is configured with a trailing slash (prepareEndpoints cuts it off)
 func endpoints(two bool) []string {
 	u := servers()
 	if two {
-		return []string{u[0], u[1]}
+		return []string{u[0], u[1] + "/"}
 	}
 	return []string{u[0]}
+}
+
+var (
+	srvPaths = map[string]int{} // request URIs seen (under rec.mu)
+	srvAuth  = map[string]int{} // Authorization schemes seen (under rec.mu)
+)
+
+// answerBody: the response body of an answer kind (the table answer_ok of coq/Model/Payload.v says which
+// sink's response reader accepts which):
+//
+//	0     {"errors":false,"code":0}                     accepted by every reader
+//	1     errors:true with items of every form          accepted (reportESErrors only logs; splunk: code 0)
+//	2, 3  not JSON                                      rejected by es with process_response and by splunk (2),
+//	                                                    accepted by es without process_response and by http (3)
+//	4, 5  {"errors":true,"code":7,"items":[]}           rejected by splunk (4), accepted by es / http (5)
+//	6, 7  {"errors":true}                               rejected by splunk: no code (6), accepted by es / http (7)
+func answerBody(kind int) []byte {
+	switch kind {
+	case 1:
+		return []byte(`{"took":5,"errors":true,"code":0,"items":[{"index":{"_index":"logs","status":400,"error":{"type":"mapper_parsing_exception","reason":"failed"}}},{"index":{"_index":"logs","status":201}},{"create":{"status":201}},{"index":{"status":500}}]}`)
+	case 2, 3:
+		return []byte("<html>502 bad gateway</html>")
+	case 4, 5:
+		return []byte(`{"errors":true,"code":7,"text":"Incorrect data format","items":[]}`)
+	case 6, 7:
+		return []byte(`{"errors":true}`)
+	}
+	return []byte(`{"errors":false,"code":0}`)
 }
 
 func params(name string, avg int) *pipeline.OutputPluginParams {
@@ -205,24 +249,20 @@ func getSink(which int, cfg hx.Sx) *sink {
 		gzLevel = "best-speed"
 	}
 	var s *sink
+	if kind >= 10 {
+		s = viaSink(kind-10, name, rw, cfg, viaTimeout(which))
+		if !fresh {
+			sinks[key] = s
+		}
+		return s
+	}
 	switch kind {
 	case 0:
 		it := hx.Items(cfg)
-		var vals []string
-		for _, v := range hx.Items(it[2]) {
-			vals = append(vals, hx.Str(v))
-		}
-		c := &esout.Config{
-			Endpoints:   endpoints(rw.two),
-			IndexFormat: hx.Str(it[1]),
-			IndexValues: vals,
-			BatchOpType: hx.Str(it[0]),
-			TimeFormat:  hx.Str(it[3]),
-			SplitBatch:  hx.Truth(it[4]),
-			UseGzip:     rw.gzip, GzipCompressionLevel: gzLevel,
-			BatchSize: bs, WorkersCount: "1",
-		}
+		c := esConfig(it, rw, gzLevel)
+		c.BatchSize, c.WorkersCount = bs, "1"
 		test.NewConfig(c, map[string]int{"gomaxprocs": 1, "capacity": 64})
+		esConfigFix(c, it)
 		p := &esout.Plugin{}
 		p.Start(c, params(name, rw.avg))
 		p.VerifSetTime(hx.Str(it[3]))
@@ -235,7 +275,7 @@ func getSink(which int, cfg hx.Sx) *sink {
 			panic(err)
 		}
 		if rw.rotate {
-			s = rotatingFileSink(name, dir)
+			s = rotatingFileSink(name, dir, rw.restart)
 			break
 		}
 		tmpDirs = append(tmpDirs, dir)
@@ -264,15 +304,8 @@ func getSink(which int, cfg hx.Sx) *sink {
 		}, stop: func() { p.Stop(); _ = os.RemoveAll(dir) }}
 	case 2:
 		it := hx.Items(cfg)
-		c := &httpout.Config{
-			Endpoints:  endpoints(rw.two),
-			SplitBatch: hx.Truth(it[1]),
-			UseGzip:    rw.gzip, GzipCompressionLevel: gzLevel,
-			BatchSize: bs, WorkersCount: "1",
-		}
-		if hx.Truth(it[0]) {
-			c.Encoding = httpout.EncodingConfig{Type: "raw", Params: json.RawMessage(`{"field":"` + rawField + `"}`)}
-		}
+		c := httpConfig(it, rw, gzLevel)
+		c.BatchSize, c.WorkersCount = bs, "1"
 		test.NewConfig(c, map[string]int{"gomaxprocs": 1, "capacity": 64})
 		p := &httpout.Plugin{}
 		p.Start(c, params(name, rw.avg))
@@ -299,7 +332,7 @@ func getSink(which int, cfg hx.Sx) *sink {
 		wd := pipeline.WorkerData(nil)
 		s = &sink{out: func(b *pipeline.Batch) error { return p.VerifOut(&wd, b) }, stop: p.Stop}
 	case 5:
-		s = gelfSink(name, rw)
+		s = gelfSink(name, rw, cfg)
 	case 6:
 		s = lokiSink(name, cfg)
 	default:
@@ -309,6 +342,64 @@ func getSink(which int, cfg hx.Sx) *sink {
 		sinks[key] = s
 	}
 	return s
+}
+
+// es cfg = (#op #index_format (#value ...) #time split [process_response]); the rows with gzip / two endpoints
+// also carry the options that only change the URL or the headers of a request (ingest_pipeline, api_key,
+// username + password): the bodies must not depend on them
+func esConfig(it []hx.Sx, rw row, gzLevel string) *esout.Config {
+	var vals []string
+	for _, v := range hx.Items(it[2]) {
+		vals = append(vals, hx.Str(v))
+	}
+	c := &esout.Config{
+		Endpoints:   endpoints(rw.two),
+		IndexFormat: hx.Str(it[1]),
+		IndexValues: vals, // empty: Start() makes it ["@time"]
+		BatchOpType: hx.Str(it[0]),
+		TimeFormat:  hx.Str(it[3]),
+		SplitBatch:  hx.Truth(it[4]),
+		UseGzip:     rw.gzip, GzipCompressionLevel: gzLevel,
+	}
+	if rw.gzip {
+		c.IngestPipeline, c.APIKey = "verif-pipeline", "verif-key"
+	}
+	if rw.two && !rw.gzip {
+		c.Username, c.Password = "verif", "secret"
+	}
+	return c
+}
+
+func esProcessResponse(it []hx.Sx) bool { return len(it) < 6 || hx.Truth(it[5]) }
+
+// after NewConfig (cfg.SetDefaultValues): the default of process_response (true) replaces a false, and the
+// default of index_values replaces an empty list — by the ONE value "[@time]" (strings.Fields of the tag
+// `default:"[@time]"`, brackets included: a configuration file without index_values gets the index name
+// "not_set"; see notes/coverage/C19-triage.md). The case's empty list is what `index_values: []` in a
+// configuration file gives: Start() makes it ["@time"].
+func esConfigFix(c *esout.Config, it []hx.Sx) {
+	c.ProcessResponse = esProcessResponse(it)
+	if len(hx.Items(it[2])) == 0 {
+		c.IndexValues = nil
+	}
+}
+
+func httpConfig(it []hx.Sx, rw row, gzLevel string) *httpout.Config {
+	c := &httpout.Config{
+		Endpoints:  endpoints(rw.two),
+		SplitBatch: hx.Truth(it[1]),
+		UseGzip:    rw.gzip, GzipCompressionLevel: gzLevel,
+	}
+	if hx.Truth(it[0]) {
+		c.Encoding = httpout.EncodingConfig{Type: "raw", Params: json.RawMessage(`{"field":"` + rawField + `"}`)}
+	}
+	if rw.gzip {
+		c.APIKey = "verif-key"
+	}
+	if rw.two && !rw.gzip {
+		c.Username, c.Password = "verif", "secret"
+	}
+	return c
 }
 
 // recording kafka producer
@@ -337,7 +428,26 @@ var (
 	gelfCond = sync.NewCond(&gelfMu)
 )
 
-func gelfSink(name string, rw row) *sink {
+// gelf cfg = () the defaults | (#host_field #short_message_field #default_short_message_value #full_message_field
+// #timestamp_field_format #level_field): the options formatEvent reads (an oracle for the model)
+func gelfConfig(cfg hx.Sx) *gelfout.Config {
+	c := &gelfout.Config{}
+	if it := hx.Items(cfg); len(it) == 6 {
+		c.HostField, c.ShortMessageField, c.DefaultShortMessageValue = hx.Str(it[0]), hx.Str(it[1]), hx.Str(it[2])
+		c.FullMessageField, c.TimestampFieldFormat, c.LevelField = hx.Str(it[3]), hx.Str(it[4]), hx.Str(it[5])
+	}
+	return c
+}
+
+// after NewConfig: an empty level_field would be replaced by the default
+func gelfConfigFix(c *gelfout.Config, cfg hx.Sx) {
+	if it := hx.Items(cfg); len(it) == 6 {
+		c.HostField, c.ShortMessageField, c.DefaultShortMessageValue = hx.Str(it[0]), hx.Str(it[1]), hx.Str(it[2])
+		c.FullMessageField, c.TimestampFieldFormat, c.LevelField = hx.Str(it[3]), hx.Str(it[4]), hx.Str(it[5])
+	}
+}
+
+func gelfListener() net.Listener {
 	ln, err := net.Listen("tcp", "127.0.0.1:0")
 	if err != nil {
 		panic(err)
@@ -363,12 +473,19 @@ func gelfSink(name string, rw row) *sink {
 			}()
 		}
 	}()
-	c := &gelfout.Config{Endpoint: ln.Addr().String(), BatchSize: fdcfg.Expression(strconv.Itoa(rw.batch)), WorkersCount: "1", ReconnectInterval: "100h"}
+	return ln
+}
+
+func gelfSink(name string, rw row, cfg hx.Sx) *sink {
+	ln := gelfListener()
+	c := gelfConfig(cfg)
+	c.Endpoint, c.BatchSize, c.WorkersCount, c.ReconnectInterval = ln.Addr().String(), fdcfg.Expression(strconv.Itoa(rw.batch)), "1", "100h"
 	test.NewConfig(c, map[string]int{"gomaxprocs": 1, "capacity": 64})
+	gelfConfigFix(c, cfg)
 	p := &gelfout.Plugin{}
 	p.Start(c, params(name, rw.avg))
-	if gelfPlugin == nil {
-		gelfPlugin = p
+	if gelfPlugins[hx.String(cfg)] == nil {
+		gelfPlugins[hx.String(cfg)] = p
 	}
 	wd := pipeline.WorkerData(nil)
 	return &sink{stop: func() { p.Stop(); _ = ln.Close() }, out: func(b *pipeline.Batch) error {
@@ -401,12 +518,13 @@ func gelfSink(name string, rw row) *sink {
 	}}
 }
 
-var gelfPlugin *gelfout.Plugin
+var gelfPlugins = map[string]*gelfout.Plugin{} // per gelf cfg: the instance whose formatEvent is the oracle
 
-func gelfOracle(enc []byte) []byte {
-	if gelfPlugin == nil {
-		getSink(5, hx.L())
+func gelfOracle(enc []byte, cfg hx.Sx) []byte {
+	if gelfPlugins[hx.String(cfg)] == nil {
+		getSink(5, cfg)
 	}
+	gelfPlugin := gelfPlugins[hx.String(cfg)]
 	root, err := insaneJSON.DecodeBytes(enc)
 	if err != nil {
 		return nil
@@ -620,7 +738,22 @@ type gen struct {
 
 // mkEv builds the case form of an event for a sink; fields = the ES index values (nil otherwise)
 func (g *gen) mkEv(kind int, enc []byte, fields []string, which int, rawHTTP bool) hx.Sx {
+	return g.mkEvCfg(kind, enc, fields, which, rawHTTP, hx.L())
+}
+
+// baseSink: 0..6 for the sink behind a which (the variants and the via drive stripped)
+func baseSink(which int) int {
+	k := which % 16
+	if k >= 10 {
+		k -= 10
+	}
+	return k
+}
+
+// mkEvCfg: gelfCfg is the gelf configuration whose formatEvent is the oracle (only read for gelf)
+func (g *gen) mkEvCfg(kind int, enc []byte, fields []string, which int, rawHTTP bool, gelfCfg hx.Sx) hx.Sx {
 	w := g.c.W
+	which = baseSink(which)
 	root, err := insaneJSON.DecodeBytes(enc)
 	if err != nil {
 		panic("c19 gen: " + err.Error())
@@ -666,7 +799,7 @@ func (g *gen) mkEv(kind int, enc []byte, fields []string, which int, rawHTTP boo
 			alt = hx.B(n.Encode(nil))
 		}
 	case which == 5:
-		a := gelfOracle(enc)
+		a := gelfOracle(enc, gelfCfg)
 		w.Oracle("gelf: the rewritten event is one JSON document without NUL", json.Valid(a) && bytes.IndexByte(a, 0) < 0, string(a))
 		ok, detail := gelfTimestampRule(root, a)
 		w.Oracle("gelf: a numeric time is divided by 1000 while above 1e12 (at most twice); below 1e9, beyond the float64 range, or not a number / date, it becomes the clock (second implementation of makeTimestampField)", ok, detail)
@@ -752,12 +885,16 @@ var shapeSrc = []string{
 
 type esCfg struct {
 	op, format string
-	vals       []string
+	vals       []string // empty: Start() makes it ["@time"]
 	time       string
 	split      bool
+	noPR       bool // process_response off (the sixth element of the cfg; absent = on)
 }
 
 func (e esCfg) sx() hx.Sx {
+	if e.noPR {
+		return hx.L(hx.S(e.op), hx.S(e.format), hx.Ss(e.vals), hx.S(e.time), hx.Bool(e.split), hx.I(0))
+	}
 	return hx.L(hx.S(e.op), hx.S(e.format), hx.Ss(e.vals), hx.S(e.time), hx.Bool(e.split))
 }
 
@@ -810,10 +947,11 @@ func c19Gen(c *hmain.Ctx) {
 		w.Oracle("time.Format of the chosen time_format is the string itself", time.Now().Format(t) == t, t)
 	}
 
-	es1 := esCfg{"index", "idx-%", []string{"svc"}, "tt", false}
-	es2 := esCfg{"create", "%-x-%%", []string{"svc", "@time", "lvl"}, "qq-ww", false}
-	es1s := esCfg{"index", "idx-%", []string{"svc"}, "tt", true}
-	es3 := esCfg{"index", "plain", []string{"@time"}, "tt", true}
+	es1 := esCfg{"index", "idx-%", []string{"svc"}, "tt", false, false}
+	es2 := esCfg{"create", "%-x-%%", []string{"svc", "@time", "lvl"}, "qq-ww", false, false}
+	es1s := esCfg{"index", "idx-%", []string{"svc"}, "tt", true, false}
+	es3 := esCfg{"index", "plain", []string{"@time"}, "tt", true, false}
+	es4 := esCfg{"index", "t-%", nil, "tt", false, true} // no index_values (Start(): ["@time"]), process_response off
 	allSinks := []sinkCfg{
 		{0, es1.sx(), es1.vals, false},
 		{0, es2.sx(), es2.vals, false},
@@ -827,6 +965,7 @@ func c19Gen(c *hmain.Ctx) {
 		{3, hx.L(hx.S("dflt"), hx.I(0), hx.I(4)), nil, false},
 		{4, hx.L(), nil, false},
 		{5, hx.L(), nil, false},
+		{0, es4.sx(), nil, false},
 	}
 	names := []string{"es", "file", "http", "kafka", "splunk", "gelf"}
 
@@ -904,9 +1043,13 @@ func c19Gen(c *hmain.Ctx) {
 			for i := 0; i < strings.Count(e.format, "%")+r.Intn(2); i++ {
 				e.vals = append(e.vals, hx.Pick(r, pool))
 			}
-			if len(e.vals) == 0 {
+			if len(e.vals) == 0 && r.Bool() {
 				e.vals = []string{"@time"}
 			}
+			if len(e.vals) == 1 && strings.Count(e.format, "%") <= 1 && r.Chance(1, 6) {
+				e.vals = nil // Start() makes it ["@time"]
+			}
+			e.noPR = r.Chance(1, 4)
 			return sinkCfg{0, e.sx(), e.vals, false}
 		case 3:
 			return allSinks[3]
@@ -974,6 +1117,7 @@ func c19Gen(c *hmain.Ctx) {
 				s[k] = 200 + s[k]%3
 			}
 		}
+		s = g.kindify(sc, s, 1, 3) // 2xx answers with other bodies (coverage.go)
 		c.Do("random-"+names[sc.which], sc.which, hx.L(sc.cfg, hx.L(bs...), ints(s)), total >= 2)
 	}
 
@@ -1008,6 +1152,9 @@ func c19Gen(c *hmain.Ctx) {
 			evs = append(evs, g.mkEv(kind, g.randEvent(), sc.fields, sc.which, sc.raw))
 		}
 		s := []int{hx.Pick(r, []int{500, 503, 404})}
+		if _, rej := answerKinds(sc); len(rej) > 0 && r.Chance(1, 3) {
+			s[0] = 1000*hx.Pick(r, rej) + 200 // a 2xx answer whose body the sink's reader rejects
+		}
 		if r.Chance(1, 3) {
 			s = append(s, 500)
 		}
@@ -1081,6 +1228,9 @@ func c19Gen(c *hmain.Ctx) {
 	g.thresholdStreams(allSinks, names, es3.sx(), es3.vals)
 
 	glap("thresholds")
+	// ---- 7d. behaviour no older stream reached: response bodies, the plugins through their public API,
+	//          gelf options, the file sink restarted (coverage.go)
+	g.coverageStreams(allSinks, names)
 	// ---- 8. Batch.ForEach alone: every kind vector of length <= 5 over {0,1,2,3}
 	var reck func(cur []int)
 	reck = func(cur []int) {
@@ -1178,7 +1328,19 @@ func main() {
 			_ = os.RemoveAll(d)
 		}
 	}()
+	// the persistent plugin instances are stopped when the run is over (Stop() of every plugin: the batcher's
+	// workers return)
+	defer func() {
+		if os.Getenv(lokiChildEnv) != "" {
+			return
+		}
+		for _, k := range hx.SortedKeys(sinks) {
+			if s := sinks[k]; s.stop != nil {
+				_ = hx.Catch(s.stop)
+			}
+		}
+	}()
 	hmain.Run(&hmain.Prop{ID: "C19",
-		Rule: "exhaustive: every batch of <= 3 events over 5 event shapes x {regular, parent} (+child) for 11 sink configurations; every 200/413/500 script of length <= 4 on batches of <= 4 events for ES/http split; every kind vector <= 5 for ForEach; every string <= 5 (6) over a JSON alphabet for the recogniser. Random: 1-4 successive batches of 0-16 random events (adversarial strings, non-string values) with random scripts, retries, 413-heavy splits. Threshold streams (thresholds.go): rows-* small AvgEventSize x batch_size rows incl. gzip / two endpoints on persistent instances, bigsmall-* payloads above and below the row's outBuf threshold alternating on one fresh instance (also the 65536-byte production row), bigbatch-* 17-40 events, status-edge-* 199..300, gelf-time values around 1e9 / 1e12, gelf-wide / wide-* 15-40 field roots with Dig before out(), rotate-file seal-up between writes, exhaustive-/random-/status-edge-loki through the plugin's own batcher. Splunk copy_fields (splunkcopy.go): exhaustive-splunk-copy every batch of <= 3 events over 6 shapes differing in which source fields they carry (+2 parents) x 8 configurations (nested / colliding / dropped targets, whole event), random-splunk-copy 18 configurations per run x 1-3 batches of 0-8 events with source fields present with probability 1/2 and of every JSON type x answers incl. retries, leak-splunk-copy carrier / bare alternation; hetero-<sink> full / bare / partial events alternating for every sink. Non-trivial = at least 2 events and one deliverable (sinks), >= 2 symbols (recogniser); distinct = distinct (sub-model, case) text.",
+		Rule: "exhaustive: every batch of <= 3 events over 5 event shapes x {regular, parent} (+child) for 11 sink configurations; every 200/413/500 script of length <= 4 on batches of <= 4 events for ES/http split; every kind vector <= 5 for ForEach; every string <= 5 (6) over a JSON alphabet for the recogniser. Random: 1-4 successive batches of 0-16 random events (adversarial strings, non-string values) with random scripts, retries, 413-heavy splits. Threshold streams (thresholds.go): rows-* small AvgEventSize x batch_size rows incl. gzip / two endpoints on persistent instances, bigsmall-* payloads above and below the row's outBuf threshold alternating on one fresh instance (also the 65536-byte production row), bigbatch-* 17-40 events, status-edge-* 199..300, gelf-time values around 1e9 / 1e12, gelf-wide / wide-* 15-40 field roots with Dig before out(), rotate-file seal-up between writes, exhaustive-/random-/status-edge-loki through the plugin's own batcher. Splunk copy_fields (splunkcopy.go): exhaustive-splunk-copy every batch of <= 3 events over 6 shapes differing in which source fields they carry (+2 parents) x 8 configurations (nested / colliding / dropped targets, whole event), random-splunk-copy 18 configurations per run x 1-3 batches of 0-8 events with source fields present with probability 1/2 and of every JSON type x answers incl. retries, leak-splunk-copy carrier / bare alternation; hetero-<sink> full / bare / partial events alternating for every sink. Coverage round (coverage.go, via.go): resp-<sink> every script of length <= 2 over {200, 500, one answer per response-body kind the sink's reader accepts / rejects (+413 with split_batch)} on a batch of three (one parent) + a batch of one for ES with / without process_response and split_batch, http, splunk, and kinds mixed into the random / retry scripts; ES without index_values as 13th exhaustive configuration; exhaustive-via-<sink> every batch of <= 2 events over 2 shapes x {regular, parent} and random-via-<sink> 1-3 batches of 0-6 events (all-parent batches, retries, give-up into the dead queue, 400) through Factory / Start / Out of es, http (json, raw), splunk, file, gelf (reconnect every batch); timeout-via-<sink> one batch sealed by batch_flush_timeout per sink (child processes); gelf-cfg two other sets of gelf field options; restart-file the file sink stopped and started again between batches. Non-trivial = at least 2 events and one deliverable (sinks), >= 2 symbols (recogniser); distinct = distinct (sub-model, case) text.",
 		Gen:  c19Gen, Exec: c19Exec})
 }
